@@ -12,6 +12,10 @@ Streams
                                        impl vs Model_C46.run            (A)
                                        impl result vs Spec_C46.spec_ok  (B, in Coq)
                                        + the direct oracle in Python on file names (B)
+  usecond directed worlds, one per protection clause (-x / -f / -E / -I): the protected package owns
+         a USE-conditional distfile named after the TARGET package, with the flag disabled in the
+         configured view (source packages are USE-configured wrappers with `_raw_pkg`), so it is kept
+         only if the code reads the raw all-USE distfiles (installed: the recorded DISTFILES)
   bad    malformed command lines (bad -m/-s values, unparsable target / exclusion pattern)
                                        impl vs Model_C46.run (nothing may be removed)
   qty    pclean.parse_time / parse_size on valid and malformed strings   impl vs Model_C46.run_qty
@@ -54,7 +58,7 @@ def _mk_classes():
     from pkgcore.config.hint import ConfigHint
     from pkgcore.ebuild.cpv import CPV
     from pkgcore.ebuild.eapi import get_eapi
-    from pkgcore.repository import prototype, util
+    from pkgcore.repository import configured, prototype, util
     from pkgcore.test.misc import FakePkgBase
 
     class SrcPkg(FakePkgBase):
@@ -101,6 +105,21 @@ def _mk_classes():
     class VdbRepo(MemRepo):
         pkg_cls = InstPkg
 
+    class CfgTree(configured.tree):
+        """USE-configured view of a MemRepo, as a domain hands out its source repositories:
+        packages are PackageWrappers (`_raw_pkg` = the raw package) whose distfiles / restrict /
+        fetchables are evaluated under the package's USE set, so `pkg.distfiles` differs from
+        `pkg._raw_pkg.distfiles` whenever a `flag? ( uri )` part is disabled."""
+        configurable = "use"
+
+        def __init__(self, raw_repo, use_map):
+            self._use_map = use_map
+            super().__init__(raw_repo, {a: klass.alias_method("evaluate_depset")
+                                        for a in ("distfiles", "restrict", "fetchables", "license")})
+
+        def _get_pkg_kwds(self, pkg):
+            return {"initial_settings": list(self._use_map.get(pkg.cpvstr, ()))}
+
     class Dom:
         pkgcore_config_type = ConfigHint(typename="domain")
 
@@ -113,7 +132,7 @@ def _mk_classes():
         all_source_repos_raw = klass.alias_attr("source_repos_raw.combined")
         all_installed_repos = klass.alias_attr("installed_repos.combined")
 
-    return MemRepo, VdbRepo, Dom
+    return MemRepo, VdbRepo, Dom, CfgTree
 
 
 class _Tty(io.StringIO):
@@ -121,7 +140,7 @@ class _Tty(io.StringIO):
         return True
 
 
-def run_pclean(argv, distdir, repos, vdb, tty):
+def run_pclean(argv, distdir, repos, vdb, tty, use=None):
     """Run the real parser + main function.  Returns (status, printed_text)."""
     from snakeoil.cli import arghparse
     from snakeoil.formatters import PlainTextFormatter
@@ -129,8 +148,9 @@ def run_pclean(argv, distdir, repos, vdb, tty):
     from pkgcore.config.hint import ConfigHint
     from pkgcore.scripts import pclean
 
-    MemRepo, VdbRepo, Dom = _CLASSES
-    dom = Dom(distdir, [MemRepo(p, f"r{i}") for i, p in enumerate(repos)], [VdbRepo(vdb, "vdb")])
+    MemRepo, VdbRepo, Dom, CfgTree = _CLASSES
+    dom = Dom(distdir, [CfgTree(MemRepo(p, f"r{i}"), use or {}) for i, p in enumerate(repos)],
+              [VdbRepo(vdb, "vdb")])
 
     def mk():
         return dom
@@ -203,10 +223,12 @@ def sel_oracle(matched, all_files):
     return {f for f in all_files if any(r.match(f) for r in regexes)}
 
 
-def flat_src_uri(entries):
-    """entries: [(kind, name)] -> (SRC_URI string, [distfile names])"""
-    parts, names = [], []
+def flat_src_uri(entries, use=()):
+    """entries: [(kind, name)] -> (SRC_URI string, all distfile names (raw, every USE branch),
+    names of the USE-configured view under `use`)"""
+    parts, names, cfg = [], [], []
     for kind, name in entries:
+        on = True
         if kind == "http":
             parts.append(f"http://h.example/d/{name}")
         elif kind == "mirror":
@@ -215,12 +237,16 @@ def flat_src_uri(entries):
             parts.append(f"http://h.example/dl?id=7 -> {name}")
         elif kind == "cond":
             parts.append(f"doc? ( http://h.example/{name} )")
+            on = "doc" in use
         elif kind == "ncond":
             parts.append(f"!static? ( x86? ( http://h.example/{name} ) )")
+            on = "static" not in use and "x86" in use
         else:
             parts.append(name)
         names.append(name)
-    return " ".join(parts), names
+        if on:
+            cfg.append(name)
+    return " ".join(parts), names, cfg
 
 
 # --------------------------------------------------------------------------- generation
@@ -246,22 +272,35 @@ def gen_world(rng, big):
             ents.append((rng.choice(["cond", "ncond", "rename"]), f"{pn}-{ver}-patches.tar.bz2"))
         if rng.random() < 0.25:
             ents.append((rng.choice(["http", "cond"]), rng.choice(shared)))
-        if rng.random() < 0.2:   # a file named after ANOTHER package (regex prefix traps)
+        if rng.random() < 0.3:   # a file named after ANOTHER package (regex prefix traps)
             other = rng.choice(PNS)
-            ents.append((rng.choice(["http", "rename"]), f"{other}-extra-{ver}.tgz"))
+            ents.append((rng.choice(["http", "rename", "cond", "ncond", "cond"]), f"{other}-extra-{ver}.tgz"))
+        if rng.random() < 0.15:  # the main tarball's documentation, USE-conditional
+            ents.append((rng.choice(["cond", "ncond"]), f"{pn}-docs-{ver}.tar.gz"))
         if rng.random() < 0.12:
             ents.append(("rename", rng.choice(["data.bin", f"{pn.upper()}-{ver}.TGZ", f"{ver}.tar.gz"])))
-        uri, names = flat_src_uri(ents)
-        fetch = rng.random() < 0.25
-        restrict = rng.choice(["fetch", "fetch mirror"]) if fetch else rng.choice(["", "", "mirror", "test"])
-        pkgs.append(((cat, pn, ver), names, fetch, {"SRC_URI": uri, "RESTRICT": restrict, "SLOT": "0"}))
+        use = [f for f in ("doc", "static", "x86") if rng.random() < 0.45]
+        uri, names, cfg = flat_src_uri(ents, use)
+        r = rng.random()
+        if r < 0.2:
+            fetch, restrict = True, rng.choice(["fetch", "fetch mirror"])
+        elif r < 0.3:    # USE-conditional RESTRICT: evaluated on the configured package
+            fetch, restrict = "doc" in use, "doc? ( fetch ) mirror"
+        elif r < 0.4:
+            fetch, restrict = "static" not in use, "!static? ( fetch )"
+        else:
+            fetch, restrict = False, rng.choice(["", "", "mirror", "test"])
+        pkgs.append(((cat, pn, ver), names, fetch,
+                     {"SRC_URI": uri, "RESTRICT": restrict, "SLOT": "0", "IUSE": "doc static x86"}, use, cfg))
         pool.update(names)
     # installed packages: some in the tree, some older versions that left the tree
     inst, vdb = [], {}
     for _ in range(rng.randint(0, 3)):
         if pkgs and rng.random() < 0.6:
-            cpv, names, _f, _d = rng.choice(pkgs)
-            names = list(names) if rng.random() < 0.8 else names[:1]
+            cpv, names, _f, _d, _u, cfg = rng.choice(pkgs)
+            # an installed copy records the distfiles of ITS build-time USE: the configured
+            # ones, all of them, or just the first
+            names = list(rng.choice([cfg, cfg, names, names[:1]]))
         else:
             pn = rng.choice(PNS)
             cpv = ("app", pn, "0.8")
@@ -285,9 +324,63 @@ def gen_world(rng, big):
         files[sorted(pool)[0]] = None
     nrep = 2 if (len(pkgs) > 1 and rng.random() < 0.3) else 1
     repos = [dict() for _ in range(nrep)]
-    for cpv, _n, _f, data in pkgs:
-        repos[rng.randrange(nrep)][f"{cpv[0]}/{cpv[1]}-{cpv[2]}"] = data
-    return {"repos": repos, "vdb": vdb, "pkgs": [(c, n, f) for c, n, f, _ in pkgs], "inst": inst, "files": files}
+    use_map, cfg_map = {}, {}
+    for cpv, _n, _f, data, use, cfg in pkgs:
+        key = f"{cpv[0]}/{cpv[1]}-{cpv[2]}"
+        repos[rng.randrange(nrep)][key] = data
+        use_map[key] = use
+        cfg_map[key] = cfg
+    return {"repos": repos, "vdb": vdb, "pkgs": [(p[0], p[1], p[2]) for p in pkgs], "inst": inst,
+            "files": files, "use": use_map, "cfg": cfg_map}
+
+
+def gen_usecond(rng, clause):
+    """Directed world for one protection clause: package A is the cleaning target; package B
+    (excluded by -x / fetch-restricted under -f / merely in the tree under -E / installed under
+    -I) owns a USE-conditional distfile NAMED AFTER A whose flag is usually disabled in the
+    configured view, so it is selected by A's regex and protected only through B's raw (all-USE)
+    distfiles — or, for -I, through the installed copy's recorded DISTFILES."""
+    pa, pb = rng.sample(PNS, 2)
+    va, vb = rng.choice(VERS), rng.choice(VERS)
+    cb = rng.choice(CATS)
+    kind = rng.choice(["cond", "ncond"])
+    disabled = rng.random() < 0.8
+    if kind == "cond":
+        use_b = [f for f in ("static", "x86") if rng.random() < 0.5] + ([] if disabled else ["doc"])
+    else:
+        use_b = (rng.choice([["static"], ["static", "x86"], []]) if disabled else ["x86"]) \
+            + (["doc"] if rng.random() < 0.5 else [])
+    docs = f"{pa}-docs-{vb}.tar.gz"
+    ents_b = [("http", f"{pb}-{vb}.tar.gz"), (kind, docs)]
+    rng.shuffle(ents_b)
+    uri_b, names_b, cfg_b = flat_src_uri(ents_b, use_b)
+    fetch_b, restrict_b = False, rng.choice(["", "mirror"])
+    if clause == "f":
+        fetch_b, restrict_b = True, rng.choice(["fetch", "!doc? ( fetch )" if "doc" not in use_b else "doc? ( fetch )"])
+    use_a = [f for f in ("doc", "static", "x86") if rng.random() < 0.4]
+    uri_a, names_a, cfg_a = flat_src_uri([("http", f"{pa}-{va}.tar.gz")], use_a)
+    ka, kb = f"app/{pa}-{va}", f"{cb}/{pb}-{vb}"
+    pkgs = sorted([(("app", pa, va), names_a, False), ((cb, pb, vb), names_b, fetch_b)],
+                  key=lambda p: (p[0][0], p[0][1], VKEY[p[0][2]]))
+    repo = {ka: {"SRC_URI": uri_a, "RESTRICT": "", "SLOT": "0", "IUSE": "doc static x86"},
+            kb: {"SRC_URI": uri_b, "RESTRICT": restrict_b, "SLOT": "0", "IUSE": "doc static x86"}}
+    vdb, inst = {}, []
+    if clause == "I" or rng.random() < 0.2:
+        rec = list(names_b) if clause == "I" else list(cfg_b)     # built with the flag on / as configured
+        vdb[f"{cb}/{pb}-{vb}"] = {"DISTFILES": " ".join(rec), "SLOT": "0"}
+        inst.append(rec)
+    files = {n: None for n in names_a + names_b + [f"{pa}-0.1.tar.gz", f"{pb}-0.1.tar.gz"]}
+    world = {"repos": [repo], "vdb": vdb, "pkgs": pkgs, "inst": inst, "files": files,
+             "use": {ka: use_a, kb: use_b}, "cfg": {ka: cfg_a, kb: cfg_b}}
+    toks = [{"x": ("x", [f"{cb}/{pb}"]), "f": ("f", None), "E": ("E", None), "I": ("I", None)}[clause]]
+    if rng.random() < 0.15:
+        toks.append((rng.choice("If"), None))
+    if rng.random() < 0.2:
+        toks.append(("m", "1d"))
+    rng.shuffle(toks)
+    pos = rng.randint(0, len(toks))
+    toks[pos:pos] = [("t", f"app/{pa}")]
+    return world, toks, rng.random() < 0.9
 
 
 def gen_patterns(rng, world, n, globs=True, bare=True):
@@ -401,7 +494,8 @@ def execute(chk, world, toks, tty):
     cwd = os.getcwd()
     os.chdir(base)
     try:
-        status, text = run_pclean(argv_strings(toks), str(dist), world["repos"], world["vdb"], tty)
+        status, text = run_pclean(argv_strings(toks), str(dist), world["repos"], world["vdb"], tty,
+                                  world.get("use"))
     finally:
         os.chdir(cwd)
     left = sorted(os.listdir(dist))
@@ -439,7 +533,22 @@ def analyse(world, toks):
     if "f" in flags:
         needed.update(chain.from_iterable(n for _c, n, f in pkgs if f))
     needed.update(chain.from_iterable(n for c, n, _f in pkgs if m(excl, c)))
-    return {"flags": flags, "excl": excl, "targets": targets, "matched": matched,
+    # which needed files are needed ONLY through a USE-conditional part that is disabled in the
+    # configured view (the code must read the raw package there), per clause
+    cfg = world.get("cfg", {})
+
+    def cn(c, n):
+        return cfg.get("%s/%s-%s" % c, n)
+    cfg_needed = set(chain.from_iterable(world["inst"])) if "I" in flags else set()
+    raw_only = {}
+    for key, on, pred in (("E", "E" in flags, lambda c, f: True), ("f", "f" in flags, lambda c, f: f),
+                          ("x", bool(excl), lambda c, f: m(excl, c))):
+        if on:
+            cfg_needed.update(chain.from_iterable(cn(c, n) for c, n, f in pkgs if pred(c, f)))
+            raw_only[key] = set(chain.from_iterable(n for c, n, f in pkgs if pred(c, f)))
+    for key in raw_only:
+        raw_only[key] = raw_only[key] - cfg_needed
+    return {"raw_only": raw_only, "flags": flags, "excl": excl, "targets": targets, "matched": matched,
             "has_restrict": has_restrict, "sel": sel, "needed": needed}
 
 
@@ -541,9 +650,10 @@ def one_case(chk, world, toks, tty):
 
 def describe(world, toks, tty, extra=None):
     d = {"argv": argv_strings(toks), "tty": tty,
-         "repo_packages": [{"cpv": "%s/%s-%s" % c, "distfiles": n, "fetch_restricted": f} for c, n, f in world["pkgs"]],
+         "repo_packages": [{"cpv": "%s/%s-%s" % c, "distfiles": n, "fetch_restricted": f,
+                            "use": world.get("use", {}).get("%s/%s-%s" % c, [])} for c, n, f in world["pkgs"]],
          "installed_distfiles": world["inst"], "distdir": {k: list(v) for k, v in world["files"].items()},
-         "world": {"repos": world["repos"], "vdb": world["vdb"]}, "toks": [[k, v] for k, v in toks]}
+         "world": {"repos": world["repos"], "vdb": world["vdb"], "use": world.get("use", {})}, "toks": [[k, v] for k, v in toks]}
     if extra:
         d.update(extra)
     return d
@@ -598,6 +708,10 @@ def main(chk: Check):
                 branch["-s"] += 1
             if not tty:
                 branch["not-a-tty"] += 1
+            for key, fs in an["raw_only"].items():
+                if any(f in world["files"] and f in an["sel"]
+                       and oracle(world, toks, dict(an, needed=set()), [f]) is None for f in fs):
+                    branch["kept-only-by-a-disabled-USE-part:-" + key] += 1
             if tty and "p" not in fl and removed:
                 kept_needed = [f for f in world["files"] if f in an["needed"] and f in an["sel"]
                                and oracle(world, toks, dict(an, needed=set()), [f]) is None]
@@ -614,7 +728,7 @@ def main(chk: Check):
     for p in sorted((VERIF / "corpus" / "C46").glob("*.json")):
         d = json.loads(p.read_text())
         w = d["world"]
-        world = {"repos": w["repos"], "vdb": w["vdb"],
+        world = {"repos": w["repos"], "vdb": w["vdb"], "use": w.get("use", {}),
                  "pkgs": [(tuple(c), n, f) for c, n, f in w["pkgs"]], "inst": w["inst"],
                  "files": {k: tuple(v) for k, v in w["files"].items()}}
         add(world, [(k, v) for k, v in d["toks"]], d["tty"], "corpus")
@@ -629,6 +743,14 @@ def main(chk: Check):
         if i < 3:
             chk.sample({"stream": "dist", "argv": argv_strings(toks), "tty": tty,
                         "distdir": sorted(world["files"]), "impl_status_left_printed": list(results[-1])})
+    for i in range(chk.n(36, 240)):
+        world, toks, tty = gen_usecond(rng, "xfEI"[i % 4])
+        assign_file_attrs(rng, world, toks)
+        shuffle_files(rng, world)
+        add(world, toks, tty, "usecond")
+        if i == 0:
+            chk.sample({"stream": "usecond", "argv": argv_strings(toks), "use": world["use"],
+                        "repo": world["repos"][0], "impl_status_left_printed": list(results[-1])})
     for i in range(chk.n(40, 300)):
         world = gen_world(rng, False)
         toks, tty = gen_argv(rng, world, bad=True)
@@ -719,7 +841,7 @@ def replay(chk, data):
         return
     pk = [((lambda c: (c.split("/")[0], c.split("/")[1].rsplit("-", 1)[0], c.rsplit("-", 1)[1]))(p["cpv"]),
            p["distfiles"], p["fetch_restricted"]) for p in d["repo_packages"]]
-    world = {"repos": d["world"]["repos"], "vdb": d["world"]["vdb"], "pkgs": pk,
+    world = {"repos": d["world"]["repos"], "vdb": d["world"]["vdb"], "use": d["world"].get("use", {}), "pkgs": pk,
              "inst": d["installed_distfiles"], "files": {k: tuple(v) for k, v in d["distdir"].items()}}
     toks = [(k, v) for k, v in d["toks"]]
     term, res, an, removed, printed, bad = one_case(chk, world, toks, d["tty"])
